@@ -62,8 +62,8 @@ pub mod conc {
             let now: Vec<u64> = progress.iter().map(|p| p.load(Ordering::Relaxed)).collect();
             if now == last {
                 let s = stalled_since.get_or_insert(Instant::now());
-                if s.elapsed() > Duration::from_millis(1500) {
-                    verdict = format!("stall: no thread made progress for 1.5s (iterations {:?}): deadlock", now);
+                if s.elapsed() > Duration::from_millis(700) {
+                    verdict = format!("stall: no thread made progress for 0.7s (iterations {:?}): deadlock", now);
                     break;
                 }
             } else {
@@ -73,8 +73,19 @@ pub mod conc {
         }
         stop.store(true, Ordering::Relaxed);
         if verdict == "ok" {
-            for h in handles {
-                let _ = h.join();
+            // the threads must notice `stop` promptly; one that does not is blocked inside the library
+            let t1 = Instant::now();
+            while handles.iter().any(|h| !h.is_finished()) {
+                if t1.elapsed() > Duration::from_millis(1500) {
+                    verdict = "stall: threads did not finish after the stop signal: deadlock".to_string();
+                    break;
+                }
+                std::thread::sleep(Duration::from_millis(20));
+            }
+            if verdict == "ok" {
+                for h in handles {
+                    let _ = h.join();
+                }
             }
         }
         // on a stall the threads are stuck: do not join (the process exits)
